@@ -161,3 +161,93 @@ Definition plane_resample (P : plane) (new_ps : Qc) : result oplane :=
   | None => Err ValueError
   | Some (px, py) => if qeqb px py then plane_rescale P (px / new_ps)%Qc else Err NotImplementedErr
   end.
+
+(* ================================================================================================================
+   lentil.util.rescale with ALL its arguments (the public lentil.rescale): shape = None | scalar | pair, an explicit
+   post-mask, unitary renormalisation; (order, mode) restricted to the two configurations lentil itself uses
+   ((3,'nearest'): Plane amplitude/opd, detector.pixelate; (0,'constant'): Plane mask).
+
+       shape = ceil(base * scale)  with base = img.shape | (shape, shape) | shape
+       x, y  = (arange(N) - N/2.)/scale + img.shape/2.              (the centre is ALWAYS the image's, whatever [shape])
+       post  = map_coordinates(mask, [yy, xx], order=1, mode='nearest');  post[post < finfo(post.dtype).eps] = 0
+       out   = map_coordinates(img, [yy, xx], order, mode)
+       if unitary: out *= sum(img)/sum(out)                         (BEFORE the post-mask)
+       out  *= post
+   An explicit mask of integer / bool dtype makes map_coordinates return that dtype and np.finfo raise ValueError
+   (finding C17-explicit-int-mask; the default mask is float because img was cast).  *)
+Inductive shapearg := ShNone | ShScalar (a : Z) | ShPair (a b : Z).
+
+Definition gen_shape (img : qarr) (sh : shapearg) (s : Qc) : Z * Z :=
+  match sh with
+  | ShNone => (rescale_shape (qnr img) s, rescale_shape (qnc img) s)
+  | ShScalar a => (rescale_shape a s, rescale_shape a s)
+  | ShPair a b => (rescale_shape a s, rescale_shape b s)
+  end.
+
+Definition qlt (x y : Qc) : bool := match (x ?= y)%Qc with Lt => true | _ => false end.
+Definition thr (eps v : Qc) : Qc := if qlt v eps then Q2Qc 0 else v.        (* post[post < eps] = 0 *)
+
+(* the interpolant before any masking *)
+Definition pre_sample (o : interp) (img : qarr) (y x : Qc) : samp :=
+  match node (qnr img) y, node (qnc img) x with
+  | Some i, Some j => Known (qget img i j)
+  | _, _ =>
+      match o with
+      | Cubic => Unknown
+      | Nearest0 => if in_closed (qnr img) y && in_closed (qnc img) x
+                    then Known (qget img (rnd y) (rnd x)) else Known (Q2Qc 0)
+      end
+  end.
+
+(* the thresholded bilinear post-mask of an explicit mask array (its own shape decides what a node is) *)
+Definition post_sample (mk : qarr) (eps : Qc) (y x : Qc) : samp :=
+  match node (qnr mk) y, node (qnc mk) x with
+  | Some i, Some j => Known (thr eps (qget mk i j))
+  | _, _ => if zero_cluster mk y x then Known (Q2Qc 0) else Unknown
+  end.
+
+(* product of two finite samples *)
+Definition smul (a b : samp) : samp :=
+  match a, b with
+  | Known u, Known v => Known (u * v)%Qc
+  | Known u, _ => if nz u then Unknown else Known (Q2Qc 0)
+  | _, Known v => if nz v then Unknown else Known (Q2Qc 0)
+  | _, _ => Unknown
+  end.
+
+Definition sample_gen (o : interp) (img : qarr) (pm : option (qarr * Qc)) (y x : Qc) : samp :=
+  match pm with
+  | None => sample o img y x                                   (* default mask = (img != 0): as in Plane.rescale *)
+  | Some (mk, eps) => smul (pre_sample o img y x) (post_sample mk eps y x)
+  end.
+
+(* sums over whole arrays *)
+Definition qsum_list (l : list Qc) : Qc := fold_right Qcplus (Q2Qc 0) l.
+Definition qsum2 (n m : Z) (f : Z -> Z -> Qc) : Qc :=
+  qsum_list (map (fun i => qsum_list (map (fun j => f i j) (zrange m))) (zrange n)).
+Definition known_val (x : samp) : option Qc := match x with Known v => Some v | _ => None end.
+Definition all_known (n m : Z) (f : Z -> Z -> samp) : bool :=
+  forallb (fun i => forallb (fun j => match f i j with Known _ => true | _ => false end) (zrange m)) (zrange n).
+Definition val0 (x : samp) : Qc := match x with Known v => v | _ => Q2Qc 0 end.
+
+(* the unitary factor sum(img)/sum(out) is pinned only when every sample of the interpolant is and the total is not 0
+   (0/0 and x/0 are nan / inf and poison every sample) *)
+Definition unitary_factor (img : qarr) (N M : Z) (pre : Z -> Z -> samp) : option Qc :=
+  if all_known N M pre then
+    let t := qsum2 N M (fun i j => val0 (pre i j)) in
+    if nz t then Some (qsum2 (qnr img) (qnc img) (qget img) / t)%Qc else None
+  else None.
+
+Definition rescale_gen (o : interp) (img : qarr) (s : Qc) (sh : shapearg) (pm : option (qarr * Qc)) (pm_int : bool)
+           (unitary : bool) : result oarr :=
+  if pm_int then Err ValueError else
+  let '(N, M) := gen_shape img sh s in
+  let cy := fun i => coord (qnr img) N s i in
+  let cx := fun j => coord (qnc img) M s j in
+  if unitary then
+    match unitary_factor img N M (fun i j => pre_sample o img (cy i) (cx j)) with
+    | Some f => if nz f then Ok (mkO N M (fun i j => smap (fun v => v * f)%Qc (sample_gen o img pm (cy i) (cx j))))
+                else Ok (mkO N M (fun _ _ => Known (Q2Qc 0)))          (* sum(img) = 0: every finite sample times 0 *)
+    | None => Ok (mkO N M (fun _ _ => Unknown))
+    end
+  else Ok (mkO N M (fun i j => sample_gen o img pm (cy i) (cx j))).
